@@ -14,7 +14,7 @@ CONSTANTS
   ConfSets = {}
   OtherSets = {}
   RefKind = "att"
-INVARIANTS OfferedInFull SuccessIff ReturnsByTimeout Independence ScatterPartition
+INVARIANTS OfferedInFull SuccessIff ReturnsByTimeout Independence DeliveredToEach ScatterPartition
 CONSTRAINT HWM
 POSTCONDITION TraceAccepted
 CHECK_DEADLOCK FALSE
